@@ -428,6 +428,21 @@ def meta_family(tier):
     t0 = time.time()
     build_harness()
     mc = tlc_model_check("proxymeta", "ProxyMeta_MC.tla", "ProxyMeta_MC.cfg", workers=8, timeout=900, xmx="4g", extra="")
+    # MetaConc.tla: concurrent deliveries at the granularity of the H3 hook labels (PlusCal)
+    if not os.environ.get("VERIF_SKIP_MC"):
+        ccfgs = ["r3", "force_resync"] if tier == "quick" else ["r3", "force_resync", "nf"]
+        cms = [tlc_model_check("metaconc_" + c, "MetaConc_MC.tla", "MetaConc_MC_%s.cfg" % c, workers=8, timeout=900 if tier == "quick" else 4000, xmx="12g", extra="") for c in ccfgs]
+        # seeded design errors and the design as found before the repair (687ce64) must be rejected
+        for v in ("bad_epoch_before_map", "bad_no_lock", "bad_no_recheck", "force_asbuilt"):
+            r = tlc_model_check("metaconc_" + v, "MetaConc_MC.tla", "MetaConc_MC_%s.cfg" % v, workers=4, timeout=600, xmx="4g", extra="")
+            if r.get("ok") or not r.get("violated"):
+                raise ToolError("MetaConc design model accepts the design error %s" % v)
+        mc = {"name": "ProxyMeta_MC + MetaConc_MC[%s] + 4 design errors of MetaConc.tla rejected" % ",".join(ccfgs),
+              "ok": mc["ok"] and all(m["ok"] for m in cms), "wall_s": round(mc["wall_s"] + sum(m["wall_s"] for m in cms), 1),
+              "states": mc.get("states", 0) + sum(m.get("states", 0) for m in cms),
+              "transitions": mc.get("transitions", 0) + sum(m.get("transitions", 0) for m in cms),
+              "violated": next((m.get("violated") for m in [mc] + cms if m.get("violated")), None),
+              "out_tail": "\n".join(m.get("out_tail", "") for m in [mc] + cms if not m["ok"])}
     d = fresh_dir(os.path.join(WORK, "meta_" + tier))
     parts = 6 if tier == "quick" else 12
     cmds, files = [], []
@@ -437,6 +452,9 @@ def meta_family(tier):
         files.append(f)
         f = os.path.join(d, "conc_%02d.ndjson" % p)
         cmds.append("%s meta-cases --concurrent --out %s --seed %d --count %d" % (UVERIF, f, sd * 71 + p, 60 if tier == "quick" else 1500))
+        files.append(f)
+        f = os.path.join(d, "race_%02d.ndjson" % p)
+        cmds.append("%s meta-cases --race --out %s --seed %d --count %d" % (UVERIF, f, sd * 73 + p, 40 if tier == "quick" else 1000))
         files.append(f)
     rc, out = _run_cmds(cmds)
     if rc != 0:
@@ -462,7 +480,7 @@ def meta_family(tier):
                 kinds[e["kind"]] = kinds.get(e["kind"], 0) + 1
                 if e["kind"] == "deliver" and (e["reply"] != "OK" or e["msg"]["force"]):
                     nontrivial += 1
-                if e["kind"] == "concurrent":
+                if e["kind"] in ("concurrent", "race"):
                     sig = ",".join(e["schedule"])
                     if sig not in scheds:
                         scheds.add(sig)
